@@ -481,13 +481,45 @@ class Normaliser(object):
         out = [atom]
         env = self.env_of(edge.src)
         if env and (mentions(edge.src.ast) & set(env)):
-            twin = self.atom(subst(edge.src.ast, env))
+            expr = subst(edge.src.ast, env)
+            if isinstance(expr, (ast.BoolOp, ast.UnaryOp)):
+                # a local holding a compound condition: the outcome
+                # establishes a conjunction of atoms, or one of several
+                form = self._formula(expr, edge.kind == 'true')
+                for part in self._flatten(form):
+                    part.raw = atom
+                    out.append(part)
+                return out
+            twin = self.atom(expr)
             if edge.kind != 'true':
                 twin = negate(twin)
             if twin.key != atom.key:
                 twin.raw = atom
                 out.append(twin)
         return out
+
+    def _flatten(self, form):
+        """Atoms established by a formula that holds: the atoms of a
+        conjunction; a disjunction becomes one 'anyof' atom."""
+        if form[0] == 'atom':
+            return [Atom(form[1].key, form[1].mentions)]
+        if form[0] == 'and':
+            out = []
+            for part in form[1]:
+                out.extend(self._flatten(part))
+            return out
+        alts = []
+        ment = set()
+        for part in form[1]:
+            sub = self._flatten(part)
+            if len(sub) != 1:
+                return []
+            alts.append(sub[0])
+            ment |= set(sub[0].mentions)
+        keys = tuple(sorted((a.key for a in alts), key=repr))
+        atom = Atom(('anyof', keys), frozenset(ment))
+        _ANYOF[atom.key] = alts
+        return [atom]
 
     def formula(self, expr):
         """Boolean structure over atoms: ('and', [..]) / ('or', [..]) /
@@ -534,6 +566,14 @@ def negate(atom):
     raise ValueError(kind)
 
 
+_ANYOF = {}
+
+
+def alternatives(atom):
+    """The alternative atoms of an 'anyof' atom."""
+    return _ANYOF.get(atom.key, [])
+
+
 def raw_only(facts):
     """Facts read directly from the source (copy-propagated twins
     dropped) - for rules that require an exact guard set."""
@@ -569,6 +609,8 @@ def show(atom):
         return key[1] if key[2] else 'not (%s)' % key[1]
     if kind == 'vec':
         return '%s(%s %s %s)' % (key[1], key[3], key[2], key[4])
+    if kind == 'anyof':
+        return ' or '.join(show(a) for a in alternatives(atom))
     return repr(key)
 
 
